@@ -10,12 +10,12 @@ def bitsStr (bs : List Bool) : String :=
 
 def natsStr (vs : List Nat) : String := if vs.isEmpty then "-" else ",".intercalate (vs.map toString)
 
-def handle (args : List String) (impl : String) : Verdict :=
+def handle1 (txID : Nat) (args : List String) (impl : String) : Verdict :=
   match args with
   | ["rb", fr, regs, fc, a, n] =>
     match frOf fr, C18.parseSpecs regs >>= C18.buildRegs, fc.toNat?, a.toNat?, n.toNat? with
     | some fr, some rs, some fc, some a, some n =>
-      let m := match clientReadBits fr 1 1 rs fc a n with
+      let m := match clientReadBits fr txID 1 rs fc a n with
         | .ok bs => "ok " ++ bitsStr bs | .err e => "err " ++ e | .panic p => "PANIC " ++ p
       -- specification: within the limits and with every addressed coil present the client returns
       -- exactly `count` values, each the coil the server holds; otherwise an error
@@ -28,7 +28,7 @@ def handle (args : List String) (impl : String) : Verdict :=
   | ["rr", fr, regs, fc, a, n] =>
     match frOf fr, C18.parseSpecs regs >>= C18.buildRegs, fc.toNat?, a.toNat?, n.toNat? with
     | some fr, some rs, some fc, some a, some n =>
-      let m := match clientReadRegs fr 1 1 rs fc a n with
+      let m := match clientReadRegs fr txID 1 rs fc a n with
         | .ok vs => "ok " ++ natsStr vs | .err e => "err " ++ e | .panic p => "PANIC " ++ p
       let vals := (List.range n).map (fun i => readReg rs (a + i))
       let legal := 1 ≤ n && n ≤ 125 && a + n ≤ 65536 && vals.all Option.isSome
@@ -80,5 +80,22 @@ def handle (args : List String) (impl : String) : Verdict :=
         { model := m, spec := some (impl == natsStr regs ++ " | " ++ natsStr vs) }
     | none => bad "C19 cv"
   | _ => bad "C19 arity"
+
+/-- sq: several reads over one link; the i-th request carries transaction id i (TCP), every answer is judged like a
+    single read -/
+def handle (args : List String) (impl : String) : Verdict :=
+  match args with
+  | ["sq", fr, regs, reqs] =>
+    let rqs := reqs.splitOn ";"
+    let impls := impl.splitOn " ; "
+    if impls.length != rqs.length then { model := "BADOBS", spec := some false, note := "class=client-disagrees-with-server" } else
+    let vs := ((List.range rqs.length).zip (rqs.zip impls)).map (fun x =>
+      match x.2.1.splitOn ":" with
+      | [k, fc, a, n] => handle1 (x.1 + 1) [k, fr, regs, fc, a, n] x.2.2
+      | _ => bad "C19 sq request")
+    { model := " ; ".intercalate (vs.map (·.model)),
+      spec := some (vs.all (fun v => v.spec == some true)),
+      note := (vs.map (·.note)).foldl (fun acc n => if acc == "" then n else acc) "" }
+  | _ => handle1 1 args impl
 
 end Driver.C19
